@@ -167,6 +167,14 @@ func (r *Run) Mine(i int) bool { return r.NShards <= 1 || i%r.NShards == r.Shard
 // ReplayPayload returns the payload of the replay file when in replay mode.
 func (r *Run) ReplayPayload() (json.RawMessage, bool) { return r.replay, r.replay != nil }
 
+// Remaining returns the seconds left of the wall-clock budget (a large number if there is none).
+func (r *Run) Remaining() float64 {
+	if r.deadline.IsZero() {
+		return 1e9
+	}
+	return time.Until(r.deadline).Seconds()
+}
+
 // TimeUp reports whether the wall-clock budget is used up; when it is, the run
 // is marked non-exhaustive (exit status is unaffected).
 func (r *Run) TimeUp() bool {
